@@ -293,6 +293,11 @@ impl IndexFooter {
     pub fn is_valid(&self) -> bool {
         let expected = self.calculate_footer_hash();
         let actual_len = self.footer_hash.len().min(self.footer_hash_bytes as usize);
+        // A stored hash longer than the MD5 prefix we compute can never match
+        // (and must not be used to slice `expected`).
+        if actual_len > expected.len() {
+            return false;
+        }
         self.footer_hash[..actual_len] == expected[..actual_len]
     }
 
@@ -482,7 +487,9 @@ impl ArchiveIndex {
             let mut actual_arr = [0u8; 8];
             let copy_len = expected_hash.len().min(8);
             expected_arr[..copy_len].copy_from_slice(&expected_hash[..copy_len]);
-            actual_arr[..copy_len].copy_from_slice(&footer.footer_hash[..copy_len]);
+            // The stored hash length comes from the file and may be shorter than 8.
+            let actual_len = footer.footer_hash.len().min(8);
+            actual_arr[..actual_len].copy_from_slice(&footer.footer_hash[..actual_len]);
             return Err(ArchiveError::ChecksumMismatch {
                 expected: expected_arr,
                 actual: actual_arr,
@@ -1156,7 +1163,9 @@ impl ChunkedArchiveIndex {
             let mut actual_arr = [0u8; 8];
             let copy_len = expected_hash.len().min(8);
             expected_arr[..copy_len].copy_from_slice(&expected_hash[..copy_len]);
-            actual_arr[..copy_len].copy_from_slice(&footer.footer_hash[..copy_len]);
+            // The stored hash length comes from the file and may be shorter than 8.
+            let actual_len = footer.footer_hash.len().min(8);
+            actual_arr[..actual_len].copy_from_slice(&footer.footer_hash[..actual_len]);
             return Err(ArchiveError::ChecksumMismatch {
                 expected: expected_arr,
                 actual: actual_arr,
